@@ -48,6 +48,9 @@ pub struct Violation {
     pub detail: String,
     /// complete, explicit, replayable description of the failing case
     pub case: Value,
+    /// where in the deterministic shard sequence it was observed: (shard, scenario index)
+    #[serde(default)]
+    pub origin: Option<(usize, usize)>,
 }
 
 #[derive(Clone, Debug, Serialize, Deserialize)]
@@ -81,6 +84,9 @@ pub fn load_known() -> KnownFile {
 pub struct Tally {
     pub evaluations: u64,
     pub distinct: std::collections::HashSet<u128>,
+    /// distinct cases counted by other processes (shards generate disjoint scenarios, so the
+    /// per-shard counts add up)
+    pub distinct_extra: u64,
     pub counters: BTreeMap<String, u64>,
     pub samples: Vec<Value>,
     pub violations: Vec<Violation>,
@@ -100,6 +106,7 @@ impl Tally {
     pub fn merge(&mut self, other: Tally) {
         self.evaluations += other.evaluations;
         self.distinct.extend(other.distinct);
+        self.distinct_extra += other.distinct_extra;
         for (k, v) in other.counters {
             if k.starts_with("max_") {
                 self.max(&k, v);
@@ -114,6 +121,40 @@ impl Tally {
         }
         self.violations.extend(other.violations);
         self.harness_errors.extend(other.harness_errors);
+    }
+}
+
+#[derive(Serialize, Deserialize, Default)]
+struct TallyWire {
+    evaluations: u64,
+    distinct_count: u64,
+    counters: BTreeMap<String, u64>,
+    samples: Vec<Value>,
+    violations: Vec<Violation>,
+    harness_errors: Vec<String>,
+}
+
+impl Tally {
+    fn to_wire(&self) -> TallyWire {
+        TallyWire {
+            evaluations: self.evaluations,
+            distinct_count: self.distinct.len() as u64 + self.distinct_extra,
+            counters: self.counters.clone(),
+            samples: self.samples.clone(),
+            violations: self.violations.clone(),
+            harness_errors: self.harness_errors.clone(),
+        }
+    }
+    fn from_wire(w: TallyWire) -> Tally {
+        Tally {
+            evaluations: w.evaluations,
+            distinct: Default::default(),
+            distinct_extra: w.distinct_count,
+            counters: w.counters,
+            samples: w.samples,
+            violations: w.violations,
+            harness_errors: w.harness_errors,
+        }
     }
 }
 
@@ -142,7 +183,8 @@ pub fn finish(
     meta: CheckMeta,
     mut tally: Tally,
     wall_s: f64,
-    confirm: &dyn Fn(&Value) -> Vec<(String, String)>,
+    _confirm_in_process: &dyn Fn(&Value) -> Vec<(String, String)>,
+    history: &dyn Fn(usize, usize) -> Option<Value>,
 ) -> i32 {
     let known = load_known();
     let root = verif_root();
@@ -168,18 +210,59 @@ pub fn finish(
     for (sig, v) in &by_sig {
         let replay = json!({
             "property": v.property, "clause": v.clause, "signature": v.signature,
-            "detail": v.detail, "case": v.case,
+            "detail": v.detail,
+            "found_with": {"VERIF_SEED": meta.seed, "tier": meta.tier},
+            "how_to_replay": "cd /verif && ./check replay <this file>   (exit 1 and a VIOLATION line if the clause fails again)",
+            "note": "case is the complete, minimised, explicit description of the failing execution(s): cell / inputs as numbers, fault plan, and per configuration the scheduler decisions (sched.Replay = task id chosen at each scheduling point; an exhausted or inapplicable entry means 'continue the current task, else lowest id') and the random outcomes handed to the code (rng.List)",
+            "case": v.case,
         });
-        match confirm(&v.case) {
-            got if got.iter().any(|(c, _)| *c == v.clause) => {}
-            other => {
-                not_reproduced.push(format!(
-                    "violation {} ({}) was observed in a simulated execution but did not reproduce from its replay description alone: got {:?}",
-                    v.clause, v.detail, other.iter().map(|x| &x.0).collect::<Vec<_>>()
-                ));
-                continue;
+        // Confirm in a FRESH process (no state left over from anything this process ran): first
+        // the explicit case alone; if that does not fail, the case preceded by the scenarios
+        // that ran before it in its shard (windows of growing length). Hidden state in the code
+        // under test (statics, caches, thread-locals) is thereby part of a replayable history.
+        let mut confirmed: Option<Value> = None;
+        let alone = judge_in_fresh_process(&json!({"cases": [v.case]}));
+        if alone.iter().any(|(c, _)| *c == v.clause) {
+            confirmed = Some(v.case.clone());
+        } else if let Some((shard, run)) = v.origin {
+            for window in [1usize, 2, 4, 8, 16, 64, usize::MAX] {
+                let lo = run.saturating_sub(window);
+                let mut cases: Vec<Value> = (lo..run).filter_map(|r| history(shard, r)).collect();
+                if cases.is_empty() {
+                    continue;
+                }
+                // the scenario of the violation itself, then the (minimised) failing case
+                if let Some(own) = history(shard, run) {
+                    cases.push(own);
+                }
+                cases.push(v.case.clone());
+                let got = judge_in_fresh_process(&json!({"cases": cases}));
+                if got.iter().any(|(c, _)| *c == v.clause) {
+                    let n = cases.len();
+                    let last = cases.pop().unwrap();
+                    let mut with_history = last.clone();
+                    with_history["history"] = json!(cases);
+                    with_history["history_note"] = json!(format!(
+                        "the failing case alone passes in a fresh process; it fails after the {} case(s) in 'history' (the scenarios that ran before it in shard {shard}) have been executed in the same process: the code under test keeps state between calls",
+                        n - 1
+                    ));
+                    confirmed = Some(with_history);
+                    break;
+                }
+                if lo == 0 {
+                    break;
+                }
             }
         }
+        let Some(case_for_replay) = confirmed else {
+            not_reproduced.push(format!(
+                "violation {} ({}) was observed in a simulated execution but did not reproduce in a fresh process, neither alone nor after the scenarios that preceded it in its shard",
+                v.clause, v.detail
+            ));
+            continue;
+        };
+        let mut replay = replay;
+        replay["case"] = case_for_replay;
         if let Some(k) = known.findings.iter().find(|k| k.property == v.property && &k.signature == sig) {
             known_hits += 1;
             lines.push(format!("KNOWN-FINDING: property={} {} [{}]", v.property, k.what, sig));
@@ -196,7 +279,7 @@ pub fn finish(
         lines.push(format!("VIOLATION property={} replay={}", v.property, path.display()));
     }
 
-    let distinct = tally.distinct.len() as u64;
+    let distinct = tally.distinct.len() as u64 + tally.distinct_extra;
     let hours = (wall_s / 3600.0).max(1e-9);
     let mut coverage = json!({
         "evaluations": tally.evaluations,
@@ -262,12 +345,80 @@ pub fn finish(
     }
 }
 
-/// Run `n` shards on up to `jobs()` OS threads. Each shard is a pure function of its index, so
-/// the merged result does not depend on how shards are spread over threads.
+/// Judge a list of cases, in order, in a fresh process; returns the failing clauses of the LAST one.
+pub fn judge_in_fresh_process(input: &Value) -> Vec<(String, String)> {
+    let dir = verif_root().join("sim/target/scratch");
+    let _ = std::fs::create_dir_all(&dir);
+    static N: std::sync::atomic::AtomicUsize = std::sync::atomic::AtomicUsize::new(0);
+    let k = N.fetch_add(1, std::sync::atomic::Ordering::SeqCst);
+    let inp = dir.join(format!("judge-{}-{k}.in.json", std::process::id()));
+    let out = dir.join(format!("judge-{}-{k}.out.json", std::process::id()));
+    if std::fs::write(&inp, serde_json::to_string(input).unwrap()).is_err() {
+        return vec![("harness:cannot-write".into(), inp.display().to_string())];
+    }
+    let exe = std::env::current_exe().expect("current_exe");
+    let status = std::process::Command::new(exe)
+        .arg("__judge")
+        .arg(&inp)
+        .arg(&out)
+        .env_remove("OPWSIM_REPORT_FD")
+        .env_remove("OPWSIM_CHILD_SHARD")
+        .stdout(std::process::Stdio::null())
+        .stderr(std::process::Stdio::null())
+        .status();
+    let res = match status {
+        Ok(_) => std::fs::read_to_string(&out)
+            .ok()
+            .and_then(|s| serde_json::from_str::<Vec<(String, String)>>(&s).ok())
+            .unwrap_or_else(|| vec![("harness:judge-process-failed".into(), String::new())]),
+        Err(e) => vec![("harness:cannot-spawn".into(), e.to_string())],
+    };
+    let _ = std::fs::remove_file(&inp);
+    let _ = std::fs::remove_file(&out);
+    res
+}
+
+/// Run `n` shards, each in its OWN child process (up to `jobs()` at a time).
+///
+/// A shard is a pure function of (VERIF_SEED, shard index) executed sequentially on one driver
+/// thread and one engine thread of a fresh process. Process-global state of the code under test
+/// (statics, lazily initialised data, caches) therefore evolves deterministically within a shard
+/// and cannot leak between shards that happen to run at the same time: no uncontrolled
+/// nondeterminism enters through it, and a violation that depends on such state is replayable
+/// by re-running the scenarios that preceded it (see `finish`).
+///
+/// The child is this same executable with the same arguments; it re-enters the check, reaches
+/// this function, runs only its shard, writes its tally and exits.
 pub fn run_shards<F>(n: usize, f: F) -> Tally
 where
     F: Fn(usize) -> Tally + Sync,
 {
+    if let Ok(i) = std::env::var("OPWSIM_CHILD_SHARD") {
+        let i: usize = i.parse().expect("OPWSIM_CHILD_SHARD");
+        let t = match std::panic::catch_unwind(std::panic::AssertUnwindSafe(|| f(i))) {
+            Ok(t) => t,
+            Err(_) => {
+                let mut t = Tally::default();
+                t.harness_errors.push(format!("shard {i} panicked on the driver thread: {}", crate::sim::take_last_panic().unwrap_or_else(|| "?".into())));
+                t
+            }
+        };
+        let out = std::env::var("OPWSIM_CHILD_OUT").expect("OPWSIM_CHILD_OUT");
+        std::fs::write(&out, serde_json::to_string(&t.to_wire()).unwrap()).expect("cannot write shard tally");
+        std::process::exit(0);
+    }
+    if std::env::var("OPWSIM_IN_PROCESS").is_ok() {
+        // single-process mode (debugging only)
+        let mut total = Tally::default();
+        for i in 0..n {
+            total.merge(f(i));
+        }
+        return total;
+    }
+    let dir = verif_root().join("sim/target/scratch");
+    let _ = std::fs::create_dir_all(&dir);
+    let exe = std::env::current_exe().expect("current_exe");
+    let args: Vec<String> = std::env::args().skip(1).collect();
     let next = std::sync::atomic::AtomicUsize::new(0);
     let results: std::sync::Mutex<Vec<(usize, Tally)>> = std::sync::Mutex::new(Vec::new());
     let workers = jobs().min(n.max(1));
@@ -278,7 +429,36 @@ where
                 if i >= n {
                     break;
                 }
-                let t = f(i);
+                let out = dir.join(format!("tally-{}-{i}.json", std::process::id()));
+                let err = dir.join(format!("tally-{}-{i}.stderr", std::process::id()));
+                let status = std::process::Command::new(&exe)
+                    .args(&args)
+                    .env("OPWSIM_CHILD_SHARD", i.to_string())
+                    .env("OPWSIM_CHILD_OUT", &out)
+                    .env("VERIF_JOBS", "1")
+                    .env_remove("OPWSIM_REPORT_FD")
+                    .stdout(std::process::Stdio::null())
+                    .stderr(std::fs::File::create(&err).map(std::process::Stdio::from).unwrap_or(std::process::Stdio::null()))
+                    .status();
+                let t = match (status, std::fs::read_to_string(&out)) {
+                    (Ok(st), Ok(text)) if st.success() => match serde_json::from_str::<TallyWire>(&text) {
+                        Ok(w) => Tally::from_wire(w),
+                        Err(e) => {
+                            let mut t = Tally::default();
+                            t.harness_errors.push(format!("shard {i}: unreadable tally: {e}"));
+                            t
+                        }
+                    },
+                    (st, _) => {
+                        let tail = std::fs::read_to_string(&err).unwrap_or_default();
+                        let tail: String = tail.lines().rev().take(6).collect::<Vec<_>>().into_iter().rev().collect::<Vec<_>>().join(" | ");
+                        let mut t = Tally::default();
+                        t.harness_errors.push(format!("shard {i}: child process failed ({st:?}): {tail}"));
+                        t
+                    }
+                };
+                let _ = std::fs::remove_file(&out);
+                let _ = std::fs::remove_file(&err);
                 results.lock().unwrap().push((i, t));
             });
         }
